@@ -207,6 +207,19 @@ def run(repo: Repo, rep: Report, tier: str) -> None:
                       "define() wrapped in try/except SemanticError -> diagnostics.error" if ok else "SemanticError from define() is not turned into an error here", m.loc(c))
     rep.floor("C14-R1", "symbol definitions in the analyzer", n_def, 6)
 
+    # the immutability test applies to every kind of symbol except the entity exception
+    vas = repo.func("SemanticAnalyzer.visit_AssignStmt")
+    imm = [n for n in walk_local(vas.node) if isinstance(n, ast.If) and "is_mutable" in norm(n.test)]
+    if imm:
+        t = imm[0].test
+        conj = t.values if isinstance(t, ast.BoolOp) and isinstance(t.op, ast.And) else [t]
+        others = [norm(c) for c in conj if "is_mutable" not in norm(c)]
+        ok = all(o.endswith("!= SymbolType.ENTITY") for o in others) and any(norm(c).startswith("not ") and "is_mutable" in norm(c) for c in conj)
+        rep.check(ok, "C14-R1", "assignment to an immutable name is refused for every kind of symbol (entities excepted)",
+                  f"guard: {norm(t)}" + ("" if ok else ": the extra conjunct narrows the rule, immutable symbols of other kinds (parameters, loop iterators, functions) become assignable"), vas.loc(imm[0]))
+    from .shared import bundle_literal_sibling_branches
+    bundle_literal_sibling_branches(repo, rep, "C14-R1")
+
     # recursion bookkeeping pairing
     fd = repo.func("SemanticAnalyzer.visit_FuncDecl")
     cfg = CFG(fd.node)
